@@ -272,14 +272,31 @@ def run(ctx):
                 seen.add(x)
                 st += [sx for sx in gbf.succ(x) if sx in body]
             return True
-        R.ob(len(pushes) == 1 and every_cycle_passes(pushes[0]), "DOM-all", gbf.where(), "DOM-all|generate_block|every-tx-listed",
+        def listed_by_adapters():
+            """the other spelling of "every scanned row is listed": the block's transaction list is the scan result taken through
+            iterator adapters that keep every element in place (`rows.into_iter().map(|(_, h)| h).collect()`) - no adapter
+            that can drop, add or move one"""
+            KEEP = {"map", "collect", "into_iter", "iter", "cloned", "copied", "inspect", "by_ref", "from_iter", "next", "size_hint"}
+            for c_ in gbf.calls():
+                if not (c_.target_path or "").endswith("BlockResponseED::new") or gbf.is_cleanup(c_.bb):
+                    continue
+                g3_ = F.fns.get(c_.target_id)
+                pn_ = (g3_.j.get("param_names") or []) if g3_ else []
+                if "transactions" not in pn_:
+                    return False
+                t_ = origin(gbf, c_.args[pn_.index("transactions")])
+                cs_ = calls_in(t_)
+                its = [x[1].split("::")[-1] for x in cs_ if "Iterator::" in x[1] or "::iter::" in x[1] or x[1].split("::")[-1] in ("into_iter", "iter")]
+                return any(x[1].split("::")[-1] == "get_range" for x in cs_) and "collect" in its and all(x in KEEP for x in its)
+            return False
+        R.ob((len(pushes) == 1 and every_cycle_passes(pushes[0])) or (not pushes and listed_by_adapters()), "DOM-all", gbf.where(), "DOM-all|generate_block|every-tx-listed",
              "an index row of the block can be passed over without its transaction being listed in the block",
              sample={"rule": "DOM-all", "fn": "generate_block", "row": "every scanned row -> transactions.push"})
         R.ob(len(accr) == 1 and every_cycle_passes(accr[0]), "DOM-all", gbf.where(), "DOM-all|generate_block|every-log-accrued",
              "a log of a listed transaction can be passed over without being accrued into the block bloom",
              sample={"rule": "DOM-all", "fn": "generate_block", "row": "every log -> bloom.accrue_log"})
         BLOCK_SOURCES = {"gas_used": ("gas_used",), "hash": ("block_hash",), "logs_bloom": ("Bloom", "as_slice"), "nonce": ("len",), "number": ("block_number",),
-                         "timestamp": ("block_timestamp",), "mine_timestamp": ("total_time_took",), "transactions": ("new",),
+                         "timestamp": ("block_timestamp",), "mine_timestamp": ("total_time_took",), "transactions": ("new", "get_range"),
                          "transactions_root": ("from_leaves",), "parent_hash": ("get_block_hash",)}
         BLOCK_EXCL = {"gas_used": ("total_time_took", "block_timestamp", "block_number"), "number": ("gas_used", "block_timestamp", "total_time_took"),
                       "timestamp": ("gas_used", "total_time_took", "block_number"), "mine_timestamp": ("gas_used", "block_timestamp", "block_number"),
